@@ -60,7 +60,7 @@ def _variants_for_discr(body, facts, term, s):
     for d in body.defs_of(p["l"]):
         if d[0] == "assign" and "discr" in d[3]:
             pl = d[3]["discr"]
-            ty = place_ty_guess(body, pl)
+            ty = d[3].get("ty") or place_ty_guess(body, pl)
             if ty:
                 return enum_variants(facts, ty)
     return None
